@@ -313,3 +313,47 @@ def eks_tables(check, ctx, rule="K-pw"):
                       "around the word and P-array boundaries, costs 0..1 (0..3 in the thorough tier), both loop orders, a short salt; 73 bytes refused")
     check.count("c_eks_rows", n)
     return n
+
+
+def eks_guard_rows(prog, sh=None):
+    """Lengths the bcrypt key schedule cannot take (key and salt are read cyclically, xorP copies min(len, rest) bytes
+    until the P-array is full): 0-byte key, 0-byte salt, 73-byte key.  Each must be refused before any access; an
+    out-of-bounds read or a loop that makes no progress (step budget) is the violation."""
+    sh = sh or Shard()
+    wrong = []
+    n = 0
+    for klen, slen in ((0, 16), (1, 0), (0, 0), (73, 16), (72, 1), (1, 16)):
+        if not sh.take():
+            continue
+        ok_expected = 1 <= klen <= 72 and slen >= 1
+        m = Machine(prog, "src/blowfish_eks.c", budget=60000000)
+        n += 1
+        tag = "EKSBlowfish_start_operation with a %d-byte key and a %d-byte salt" % (klen, slen)
+        try:
+            rc, st = _start(m, "EKSBlowfish_start_operation",
+                            [m.alloc_bytes([0x41] * klen, "key"), klen, m.alloc_bytes([0x42] * slen, "salt"), slen, 0, 1])
+        except Undecided as e:
+            if "budget" in str(e) and not ok_expected:
+                wrong.append("%s makes no progress (no refusal within the step budget: the cyclic copy never advances)" % tag)
+                continue
+            raise
+        except CError as e:
+            wrong.append("%s: %s" % (tag, e))
+            continue
+        if (rc == 0) != ok_expected:
+            wrong.append("%s is %s (code %r)" % (tag, "accepted" if rc == 0 else "refused", rc))
+    return n, wrong
+
+
+def eks_guard_tables(check, ctx, rule="G-c"):
+    prog = CProgram(ctx.cdb)
+    res = run_sharded(ctx.root, prog, __name__, ["eks_guard_rows"], shards=6)
+    n, wrong, und = res["eks_guard_rows"]
+    if und:
+        raise AnalysisError("C evaluator could not decide the EKSBlowfish guard rows: %s" % (und,))
+    check.ob(rule, "%s|c|eksblowfish.lengths" % rule, not wrong, "src/blowfish.c", 0,
+             extracted=("%d of %d rows differ: " % (len(wrong), n) + "; ".join(wrong[:3])) if wrong else
+             "%d rows: empty key, empty salt and 73-byte key refused before any access; 1..72 / >= 1 accepted" % n,
+             expected="key length 1..72 and a non-empty salt, anything else refused with an error code (the Python layer turns it into ValueError)")
+    check.count("c_eks_guard_rows", n)
+    return n
